@@ -186,6 +186,18 @@ func runWireTable(c *Ctx) {
 			// the accumulators' merge stores and the literal flags are handled by other rules
 			seen[key] = true
 			why := matchWire(b, expr, r)
+			if why != "" && strings.Contains(expr, "param:<proto.") {
+				// the wire message arrives as a parameter of a helper: say what the callers pass
+				for _, prm := range fs.fn.Params {
+					if pt := shortType(prm.Type()); strings.HasPrefix(pt, "*proto.") && why != "" {
+						if e2 := b.bindInContextT(fs.fn, fs.store.Val, fnSet, 0, pt); matchWire(b, e2, r) == "" {
+							expr, why = e2, ""
+						} else if e2 != expr {
+							why += " [as the callers see it: " + clip(e2, 200) + ": " + matchWire(b, e2, r) + "]"
+						}
+					}
+				}
+			}
 			c.Check(why == "", "A3", fname, key, p.ipos(fs.store), key+" <- "+clip(expr, 120), why+" (expression: "+clip(expr, 200)+")")
 		}
 	}
